@@ -396,8 +396,10 @@ func runAlias(sc *aliasScenario) (st aliasStats, err error) {
 			if op.Kind != "del" {
 				cond = even
 			}
+			nMatch := len(m.Query(path))
 			want, wantVals := m.Delete(path, cond)
-			icond := func(v interface{}) bool { return cond(v.(int)) }
+			condCalls := 0
+			icond := func(v interface{}) bool { condCalls++; return cond(v.(int)) }
 			var got []string
 			switch op.Kind {
 			case "del":
@@ -413,6 +415,9 @@ func runAlias(sc *aliasScenario) (st aliasStats, err error) {
 				if fmt.Sprint(vals) != fmt.Sprint(wv) {
 					return st, fmt.Errorf("%s visited values %v, model removed %v (values %v)", what, vals, pathsOf(want), wv)
 				}
+			}
+			if op.Kind != "del" && condCalls != nMatch {
+				return st, fmt.Errorf("%s: the condition was consulted %d times, %d leaves match the path (one call puts every matching leaf to the condition once)", what, condCalls, nMatch)
 			}
 			if op.Kind != "walkdel" {
 				for _, p := range returned {
